@@ -113,12 +113,31 @@ def _run(built, hooks, drv):
     return rec, ins, outs
 
 
-def _bytes_equal(xs, ys, timeout):
-    """term identity, else z3 on the differing bytes; returns (verdict, queries)"""
+def _simulate_differs(xs, ys, tag):
+    """cheap refutation before the solver: evaluate both sides on a few random assignments (only when
+    no uninterpreted function is involved).  True = a concrete assignment separates them."""
+    ts = [t for t in list(xs) + list(ys) if isinstance(t, T.Term)]
+    try:
+        vs = T.variables(ts)
+        r = rng("c07s448sim", tag)
+        for it in range(4):
+            env = {v.aux[0]: r.getrandbits(v.w) for v in vs}
+            if T.evaluate(list(xs), env) != T.evaluate(list(ys), env):
+                return True
+    except (ValueError, KeyError, ZeroDivisionError):
+        pass
+    return False
+
+
+def _bytes_equal(xs, ys, timeout, simulate=None):
+    """term identity, else (optionally) random simulation, else z3 on the differing bytes;
+    returns (verdict, queries)"""
     if len(xs) != len(ys):
         return "length", 0
     if glue.same_terms(xs, ys):
         return "unsat", 0
+    if simulate is not None and _simulate_differs(xs, ys, simulate):
+        return "sat (concrete assignment of the stub outputs)", 0
     em = BVEmitter()
     diffs = ["(distinct %s %s)" % (em.ref(x, 8) if isinstance(x, T.Term) else bvc(x, 8),
                                    em.ref(y, 8) if isinstance(y, T.Term) else bvc(y, 8))
@@ -174,7 +193,7 @@ def check_sign(built, hooks, shape, timeout):
         if not glue.same_terms(list(sig[0:57]), enc[0]["bytes"]):
             problems.append("sig[0..57] is not encode(R)")
         _, _, so = sym_run(built, "drv_ed448_sref", concrete={"r": red[0]["scalar"], "k": red[1]["scalar"], "s": list(s)})
-        v, q = _bytes_equal(list(sig[57:113]), so["out"], timeout)
+        v, q = _bytes_equal(list(sig[57:113]), so["out"], timeout, simulate=str(shape))
         nq += q
         if v != "unsat":
             problems.append("sig[57..113] is not encode_scalar(r + k*s) (solver: %s)" % v)
